@@ -26,6 +26,9 @@
 #ifndef ID
 # define ID 1
 #endif
+#ifndef FIELD
+# define FIELD 0
+#endif
 #if ID
 # define PW crypto_pwhash_argon2id
 # define P_(x) crypto_pwhash_argon2id_##x
@@ -128,6 +131,32 @@ VERIF_MAIN
         else want = (in.opslimit == 3 && mkib == 8) ? 0 : 1;
         CHECK(r == want, "needs_rehash: 0 iff (t, m) of the string equal the requested ones, 1 if they differ, -1 if the string is malformed or the limits do not fit");
         if (want == 0) { WITNESS_AT("equal parameters"); }
+    }
+#elif PART == 5
+    {
+        /* numeric parameter fields with 10 symbolic digits: values above UINT32_MAX must make the string malformed
+         * (FIELD: 0 = m, 1 = t, 2 = p, 3 = v) */
+        static const char *pre[4] = { "$argon2id$v=19$m=", "$argon2id$v=19$m=8,t=", "$argon2id$v=19$m=8,t=3,p=", "$argon2id$v=" };
+        static const char *post[4] = { ",t=3,p=1$AAAAAAAAAAA$AAAAAAAAAAAAAAAAAAAAAA", ",p=1$AAAAAAAAAAA$AAAAAAAAAAAAAAAAAAAAAA",
+                                       "$AAAAAAAAAAA$AAAAAAAAAAAAAAAAAAAAAA", "$m=8,t=3,p=1$AAAAAAAAAAA$AAAAAAAAAAAAAAAAAAAAAA" };
+        char     str[96];
+        uint64_t v = 0;
+        size_t   n = strlen(pre[FIELD]), k;
+        memcpy(str, pre[FIELD], n);
+        for (k = 0; k < 10; k++) {
+            ASSUME(in.s[k] >= '0' && in.s[k] <= '9');
+            str[n + k] = in.s[k];
+            v = v * 10 + (uint64_t) (in.s[k] - '0');
+        }
+        ASSUME(in.s[0] != '0');
+        memcpy(str + n + 10, post[FIELD], strlen(post[FIELD]) + 1);
+        r = crypto_pwhash_argon2id_str_needs_rehash(str, 3, 8 * 1024);
+        if (v > UINT32_MAX) {
+            CHECK(r == -1, "a decimal parameter that does not fit 32 bits makes the hash string malformed (-1), it is never truncated");
+            WITNESS_AT("parameter above 2^32");
+        } else {
+            CHECK(r == -1 || r == 0 || r == 1, "needs_rehash returns -1, 0 or 1");
+        }
     }
 #elif PART == 2
     {
